@@ -1,7 +1,7 @@
 (* C08 — Fragments and mixins are honoured as reusable base types.
    Property theorems only; proofs live in Proofs/FragmentsP.v. *)
 From Coq Require Import List String Bool Permutation.
-From AC Require Import Model.Prune Model.Fragments Proofs.PruneP Proofs.FragmentsP.
+From AC Require Import Model.Prune Model.Fragments Proofs.PruneP Proofs.FragmentsP Proofs.FragmentsResultsP.
 Import ListNotations.
 Local Open Scope string_scope.
 
@@ -89,6 +89,40 @@ Theorem C08_base_graph_on_written_names : forall fuel sch frags g, top_graph fue
   forall n d, In d (succs g n) -> exists fd, find_frag d frags = Some fd.
 Proof. exact top_graph_written. Qed.
 Print Assumptions C08_base_graph_on_written_names.
+
+(* the result of the resolver does not depend on the fuel once it suffices (so fuel is not a parameter of the
+   behaviour), and the base graph handed to the class generator IS the hierarchy the fragments module realises:
+   the class generated for a fragment resolves exactly `succs g name` as bases and lists exactly
+   `succs (rgraph g) name` - this closes the gap between C08_mixin_instance's `reachable (rgraph g) b fn`
+   and the classes actually emitted *)
+Theorem C08_resolve_fuel_independent : forall sch frags f1 f2 under ss root unp r1 r2,
+  resolve f1 sch frags under ss root unp = Some r1 -> resolve f2 sch frags under ss root unp = Some r2 -> r1 = r2.
+Proof. exact resolve_fuel_agree. Qed.
+Print Assumptions C08_resolve_fuel_independent.
+
+Theorem C08_top_graph_realised : forall fuel0 fuel sch frags g snake fd cs s',
+  top_graph fuel0 sch frags = Some g -> NoDup (map fr_name frags) -> In fd frags ->
+  unpack_fragment sch fd None = false ->
+  gen_frag fuel sch frags g snake fd = Some (cs, s') ->
+  exists c rest, cs = c :: rest /\ c_name c = pascal_s (fr_name fd) /\
+    c_frags c = sort_uniq (succs g (fr_name fd)) /\
+    c_bfrags c = sort_uniq (succs (rgraph g) (fr_name fd)).
+Proof. exact top_graph_realised. Qed.
+Print Assumptions C08_top_graph_realised.
+
+(* the two models of _resolve_selection_set agree: on the shared encoding (tr_schema / tr_frag / tr_sel into
+   Gql.Schema), Model/Results.v's resolve (C01: field nodes + bases) returns exactly the base list that
+   Model/Fragments.v's resolve (C08: bases + unpacked names) returns - for every selection set, every nesting of
+   inline fragments and fragment chains, conditional or not.  wf_doc: fragment types and the interfaces listed by
+   objects are types of the schema (Results.v raises KeyError otherwise). *)
+Theorem C08_resolve_agrees_with_results : forall sch frags, wf_doc sch frags ->
+  forall f under ss root unp fields mix unp',
+  resolve f sch frags under ss root unp = Some (fields, mix, unp') -> known sch root ->
+  forall F, f <= F ->
+  exists fns, AC.Model.Results.resolve F (tr_schema sch) (map tr_frag frags) under (map tr_sel ss) root
+              = AC.Model.Results.Ok (fns, mix).
+Proof. exact resolve_agrees. Qed.
+Print Assumptions C08_resolve_agrees_with_results.
 
 (* the listed fragment bases never contain a fragment that another fragment of the resolved set - in
    particular another listed base, earlier or later - inherits: `class X(A, B)` with B a subclass of A
